@@ -721,7 +721,7 @@ func c06BFS(depth int, res *vlib.Result, layout int) {
 func C06Plan() *vlib.Plan {
 	p := &vlib.Plan{
 		Property: "C06", Level: "model_checking", Workers: 1,
-		Rule:   "E-BFS on the real server resumption path. Events: establish a keyed session (real handshake), establish a key-less session (no common cipher), scripted resumption with the right id+key from another address, legitimate client resumption, advance virtual time by lease/2, lease+60, duration+60, invalidate K / L, sweep expired. A state is the event history replayed on a cleared cache; canonical key = (status and remaining-lifetime bucket of K and L, client still holds K, replay recorded). In EVERY state a battery of scripted requests is fired: {K, L, unknown id} x {wrong key, no key} x {reply requested, not} x {same, different source address}, every single-character alteration of a live id (once), and byte-for-byte replays (whole and truncated at every frame boundary) of a recorded legitimate resumed connection. The whole search runs six times (the last to depth 4, with the authenticated cipher-less session made by TOKEN instead of CLAIMTOBE): with the keyed session minted/imported as a claim session (inherited flag, finite lifetime, no lease) instead of negotiated, once with the default policy, once minted with Encryption and Integrity off, once held by servers whose own policy is Encryption NEVER / Integrity NEVER (it still carries a key, and a resumed connection is protected by it); servers on the package-global cache, and servers configured with a SessionCache of their own and an identity-mapping PostAuthPolicy (sessions are invalidated through the package API, swept in both). Plus late imports: a claim id whose embedded deadline lies {20 years, a day, an hour, 2 min} in the past, {2 min, an hour} ahead or is absent x importer fallback duration {none, 1 h} x {imported once, twice} is registered on the server and then resumed by a requester holding id and key: resumed iff the deadline has not passed. Oracle = reference map id -> {key?, expiry, invalidated}. traces = states replayed; transitions = events + probes executed.",
+		Rule:   "E-BFS on the real server resumption path. Events: establish a keyed session (real handshake), establish a key-less session (no common cipher), scripted resumption with the right id+key from another address, legitimate client resumption, advance virtual time by lease/2, lease+60, duration+60, invalidate K / L, sweep expired. A state is the event history replayed on a cleared cache; canonical key = (status and remaining-lifetime bucket of K and L, client still holds K, replay recorded). In EVERY state a battery of scripted requests is fired: {K, L, unknown id} x {wrong key, no key} x {reply requested, not} x {same, different source address}, every single-character alteration of a live id (once), and byte-for-byte replays (whole and truncated at every frame boundary) of a recorded legitimate resumed connection. The whole search runs six times (the last to depth 4, with the authenticated cipher-less session made by TOKEN instead of CLAIMTOBE): with the keyed session minted/imported as a claim session (inherited flag, finite lifetime, no lease) instead of negotiated, once with the default policy, once minted with Encryption and Integrity off, once held by servers whose own policy is Encryption NEVER / Integrity NEVER (it still carries a key, and a resumed connection is protected by it); servers on the package-global cache, and servers configured with a SessionCache of their own and an identity-mapping PostAuthPolicy (sessions are invalidated through the package API, swept in both). Plus late imports: a claim id whose embedded deadline lies {20 years, a day, an hour, 2 min} in the past, {2 min, an hour} ahead or is absent x importer fallback duration {none, 1 h} x {imported once, twice} is registered on the server and then resumed by a requester holding id and key: resumed iff the deadline has not passed. Plus sessions established under all 4x4 authentication levels x 3 method lists and resumed by the real client: both sides report the authentication status, identity and encryption the original handshake established. Oracle = reference map id -> {key?, expiry, invalidated}. traces = states replayed; transitions = events + probes executed.",
 		Assume: []string{"virtual time = re-storing every cache entry with its expiration moved back (public API), margins of 60 s against real time", "single process, sequential (the server-side cache is process-global)"},
 	}
 	p.Gen = func(tier string, yield func(vlib.Case)) {
@@ -761,6 +761,7 @@ func C06Plan() *vlib.Plan {
 			return res
 		}})
 		c06LateCases(yield)
+		c06StatusCases(yield)
 		// the same search over servers configured with a session cache of their own
 		yield(vlib.Case{ID: fmt.Sprintf("bfs/server-own-cache/depth=%d", D), Run: func() *vlib.Result {
 			res := &vlib.Result{}
